@@ -171,6 +171,10 @@ func (e *entry) compare(a, b any, lenient bool) (*difference, int) {
 	return c.diffValues(a, b), c.subsecLost
 }
 
+// unwritableHash: the reasons (see the canon functions in registry.go) that
+// say "this value names a hash function that has no wire name".
+var unwritableHash = map[string]bool{"unknown hash": true, "no (valid) hash function": true, "hash function without a wire name": true}
+
 func (e *entry) canonical(v any) string {
 	if s := genericCanon(reflect.ValueOf(v)); s != "" {
 		return s
@@ -421,6 +425,12 @@ func checkValue(c *core.Case, e *entry, v any, why string, smp *valueSample) (fi
 		c.Count("decode_errors", 1)
 		if why == "" {
 			violate(c, "codec:R:"+typ+":decode-error", "the %s output of a canonical %s value is rejected by its own decoder: %v\n%s", good[0].Form, typ, err1, qb(good[0].B))
+		} else if unwritableHash[why] {
+			// A hash function without a wire name cannot be written: the encoders
+			// either say so (an error, counted above) or leave the optional hash
+			// out.  An encoder that reports success has written something, and
+			// that has to be something the type's own decoder accepts.
+			violate(c, "codec:R:"+typ+":decode-error:unwritable-hash", "%s of a %s value with %s reported success, but its output is rejected by the type's own decoder: %v\n%s", good[0].Form, typ, why, err1, qb(good[0].B))
 		}
 		return
 	}
